@@ -166,7 +166,9 @@ CHECKS = {
             "representation are validated to 0.01 arcsec by the correspondence run, not proved; strings are ASCII.",
             "§5 C05"),
     "C02": ("Lean 4 refinement proof (concrete multi-file reader state → flat byte-array spec), induction over operation "
-            "histories + differential correspondence on real file sets + byte-array oracle",
+            "histories; the concrete reader (_open, _seek2hdr, _seek_set, seek, cur_data_pos_stream, eos, the creadinto "
+            "and cread loops) is TRANSLATED statement by statement from fileio.py on every run and proved equal to the "
+            "model (Tie/SeekArith, Tie/ReadLoops) + differential correspondence on real file sets + byte-array oracle",
             "Theorems step_refines / history_refines: for every file list (incl. empty data sections), every state "
             "satisfying the invariant and every history of seek/cread/creadinto, outputs and reported stream positions "
             "equal those of the byte-array model over the concatenated data sections (headers never leak; short read at "
@@ -182,7 +184,9 @@ CHECKS = {
             "(zero variance/skew, guards), minmax_partition, count_exact — exact over ℚ for streams of any length.",
             "Float32 rounding (and fastmath) is not modelled: the implementation is compared with the exact model within "
             "an explicit tolerance; skew is modelled through its square and sign.", "§5 C10"),
-    "C01": ("Lean 4 proof by induction over the block list of a hand model of read_plan + differential correspondence "
+    "C01": ("Lean 4 proof by induction over the block list of a model of read_plan whose arithmetic is re-translated "
+            "from readers.py on every run (Tie/Plan), on top of the translated reader position arithmetic and read loops "
+            "(Tie/SeekArith, Tie/ReadLoops) + differential correspondence "
             "on real multi-file SIGPROC sets + independent concatenation oracle",
             "Theorem plan_covers: for all gulp/start/nsamps/skipback/N the model of the generator either yields nothing "
             "and raises ValueError, or its blocks laid end to end are exactly samples [start,start+nsamps) once each, "
@@ -193,7 +197,8 @@ CHECKS = {
             "yielded array and files whose data section is not a whole number of samples are outside the model.",
             "§5 C01"),
     "C03": ("Lean 4 proof over kernels regenerated from source (decide +kernel on the full per-byte domain, induction "
-            "over array length) + exhaustive per-byte correspondence",
+            "over array length), argument validation of bits.unpack/pack re-translated and proved equal to the model's "
+            "decision logic (Tie/BitsValidation) + exhaustive per-byte correspondence and every near-size buffer",
             "Theorems pack∘unpack=id, unpack∘pack=id, unpack=bit-field definition for arrays of every length, about "
             "per-byte kernels re-translated from kernels.py on every run; validation logic as decision-logic theorems. "
             "The per-byte domain is enumerated completely by the kernel, so a proof is the right level.",
